@@ -96,10 +96,23 @@ def oracle(ctx, c, r, stats, removed):
         except Exception:
             stats["input_unparsable"] += 1
     wrote = False
+    prev = a0
     for k, (o, s) in enumerate(zip(c["ops"], r["steps"])):
         if s["r"] != "ok":
             stats["refused"] += 1
             continue
+        if fam == "bmff" and c.get("grp") == "bmff":
+            # correspondence with Model/BmffOffsets.v: every chunk-offset entry moves by the size change of the C2PA box
+            cur = K.step_bytes(s)
+            try:
+                e0, e1 = K.bmff_chunk_offsets(prev), K.bmff_chunk_offsets(cur)
+                want = [e + len(cur) - len(prev) for e in e0]
+                stats["bmff_shift_checked"] = stats.get("bmff_shift_checked", 0) + 1
+                if e1 != want:
+                    ctx.disagreements.append({"case": c, "step": k, "impl": e1[:6], "model": want[:6], "what": "uniform offset shift"})
+            except Exception:
+                pass
+            prev = cur
         if o["op"] == "w" and not K.admissible(fam, K.store_bytes(o["s"])):
             return
         out = K.step_bytes(s)
